@@ -132,7 +132,7 @@ def run_task(prop, obl_index, case_index, stack, deadline, slice_s=None):
                path_seconds=obl.path_seconds, conc_cap=obl.conc_cap)
   res = dict(obl=obl.name, obl_index=obl_index, case_index=case_index, paths=0, forked=0, queries=0,
              solver_s=0.0, concretisations=0, failures=[], known=[], witnesses=[], samples=[], leftover=[],
-             status='ok', clauses_checked=0, clauses_symbolic=0, exc_paths={}, wall_s=0.0)
+             status='ok', clauses_checked=0, clauses_symbolic=0, exc_paths={}, wall_s=0.0, nontrivial=0)
   known = [k for k in known_findings() if k.get('property') == prop and k.get('obligation') == obl.name]
   holder = {}
   t0 = time.time()
@@ -149,9 +149,11 @@ def run_task(prop, obl_index, case_index, stack, deadline, slice_s=None):
     if outcome[0] == 'exc':
       sig = exc_signature(outcome[1])
       res['exc_paths'][sig] = res['exc_paths'].get(sig, 0) + 1
+      if eng_.decisions: res['nontrivial'] += 1
       fails.append((sig, None, ''.join(traceback.format_exception(outcome[1])[-6:])))
     else:
       sym = []
+      if eng_.decisions or any(isinstance(c, (SymBool, SymInt)) for _, c in ctx.clauses): res['nontrivial'] += 1
       for name, cond in ctx.clauses:
         res['clauses_checked'] += 1
         if isinstance(cond, SymBool):
@@ -269,7 +271,7 @@ def run_property(prop, tier, seed=0, budget_s=None, jobs=None, only=None, slice_
   mpctx = multiprocessing.get_context('fork')
   agg = {}
   for oi, o in enumerate(obls):
-    agg[o.name] = dict(desc=o.desc, cases=len(o.cases), tasks=0, paths=0, forked=0, queries=0, solver_s=0.0,
+    agg[o.name] = dict(desc=o.desc, cases=len(o.cases), tasks=0, paths=0, forked=0, nontrivial=0, queries=0, solver_s=0.0,
                        concretisations=0, clauses_checked=0, clauses_symbolic=0, witnesses=set(), samples=[],
                        status='ok', reasons=[], exc_paths={}, known=0, cpu_s=0.0)
   failures = []; knowns = []; engine_errors = []; inconclusive = []; percase = {}
@@ -288,7 +290,7 @@ def run_property(prop, tier, seed=0, budget_s=None, jobs=None, only=None, slice_
         a = agg[r['obl']]
         a['tasks'] += 1
         percase[(r['obl'], r['case_index'])] = percase.get((r['obl'], r['case_index']), 0) + r['paths']
-        for k in ('paths', 'forked', 'queries', 'solver_s', 'concretisations', 'clauses_checked', 'clauses_symbolic'):
+        for k in ('paths', 'forked', 'queries', 'solver_s', 'concretisations', 'clauses_checked', 'clauses_symbolic', 'nontrivial'):
           a[k] += r[k]
         a['cpu_s'] += r['wall_s']
         a['witnesses'] |= set(r['witnesses'])
@@ -343,7 +345,7 @@ def run_property(prop, tier, seed=0, budget_s=None, jobs=None, only=None, slice_
   # ---- verdict
   wall = time.time() - t0
   total_paths = sum(a['paths'] for a in agg.values())
-  forked = sum(a['forked'] for a in agg.values())
+  forked = sum(a['nontrivial'] for a in agg.values())
   discharged = sum(1 for o in obls if agg[o.name]['status'] == 'ok' and not any(v[2] == o.name for v in violations))
   for l in known_lines: print(l)
   status = EXIT_OK
@@ -372,7 +374,8 @@ def run_property(prop, tier, seed=0, budget_s=None, jobs=None, only=None, slice_
       evaluations=total_paths, distinct_nontrivial=forked,
       rule="one evaluation = one feasible execution path of the harness through the real code, found by solver-decided "
            "forking; each path stands for all inputs satisfying its path condition; non-trivial = the path took at "
-           "least one solver-decided branch on a symbolic value (distinct by construction: decision prefixes differ)",
+           "least one solver-decided branch on a symbolic value or its assertion was a symbolic term decided by the solver (distinct by "
+           "construction: decision prefixes / cases differ)",
       samples=samples or [dict(note='no paths')],
       obligations=len(obls), discharged=discharged,
       per_obligation={o.name: dict(desc=o.desc, cases=len(o.cases), tasks=agg[o.name]['tasks'],
